@@ -18,8 +18,25 @@ def fam_fastpath(g):
         files = g.worktree_files()
     path = rng.choice(files)
     base = g.branch()
-    klass = rng.choice(["all", "all", "some", "none"])
+    klass = rng.choice(["all", "all", "some", "none", "reorder"])
     g.ex.probe("fastpath.class." + klass)
+    if klass == "reorder":
+        # commits that touch different files are reordered: the tip trees agree, the pairs do not
+        name = "feat"
+        yield g.git("checkout", "-q", "-b", name)
+        k = min(len(files), rng.randint(2, 3))
+        for f in rng.sample(files, k):
+            yield from g.some_edits(n_ai=(1, 2), n_human=(0, 0), path=f)
+            yield from g.commit_all()
+        yield g.git("checkout", "-q", base)
+        if rng.random() < 0.5:
+            yield g.human_edit(new_file=True)
+            yield from g.commit_all()
+        yield g.git("checkout", "-q", "feat")
+        plan = rng.choice(["reverse", "swap:0,1"])
+        yield g.git("rebase", "-i", base, env=g.seq_env(plan), rewrite=True, plan=plan)
+        yield from hist.resolve_loop(g, ["rebase", "--continue"], ["rebase", "--abort"], must_abort=True)
+        return
     n = rng.randint(1, 3)
     name = rng.choice(["feat", "src"])
     yield g.git("checkout", "-q", "-b", name)
@@ -66,7 +83,7 @@ class C15(C02):
             "taken in the first execution and an AI line observed")
     assumptions = ["conflicting rebases are aborted in both executions (conflicts are C02's subject)"]
     expected_probes = ["fastpath.rebase.taken", "fastpath.cherry_pick.taken", "fastpath.class.all", "fastpath.class.none",
-                       "fastpath.class.some", "ai_lines_observed"]
+                       "fastpath.class.some", "fastpath.class.reorder", "ai_lines_observed"]
 
     def make_exec(self, root, trace):
         ex = PairExec(root, trace)
